@@ -71,7 +71,7 @@ theorem order_verifyInstanceTags : Facts.order_otrV3_verifyInstanceTags = ["malf
 theorem order_akeHasFinished : Facts.order_Conversation_akeHasFinished = ["wipe", "wipe", "Now", "signalSecurityEventIf", "signalSecurityEventIf", "PublicKey", "IsSame", "messageEvent", "generateNewDHKeyPair"] := by decide
 theorem order_genDataMsgWithFlag : Facts.order_Conversation_genDataMsgWithFlag = ["calculateDHSessionKeys", "findCounterFor", "PutUint64", "encrypt", "messageHeader", "revealMACKeys", "sign", "updateMayRetransmitTo", "len", "last", "unlock"] := by decide
 theorem order_receiveDecoded : Facts.order_Conversation_receiveDecoded = ["checkVersion", "parseMessageHeader", "receiveDataMessage", "receiveAKEMessage"] := by decide
-theorem order_rotateOurKeys : Facts.order_keyManagementContext_rotateOurKeys = ["revealMACKeysForOurPreviousKeyID", "forgetCountersForOurKey", "generateNewDHKeyPair"] := by decide
+theorem order_rotateOurKeys : Facts.order_keyManagementContext_rotateOurKeys = ["randSizedSecret", "revealMACKeysForOurPreviousKeyID", "forgetCountersForOurKey", "installNewDHKeyPair"] := by decide
 theorem order_rotateTheirKey : Facts.order_keyManagementContext_rotateTheirKey = ["revealMACKeysForTheirPreviousKeyID", "forgetCountersForTheirKey"] := by decide
 theorem order_deriveDHSessionKeys : Facts.order_keyManagementContext_deriveDHSessionKeys = ["pickOurKeys", "pickTheirKey", "newOtrConflictError", "calculateDHSessionKeys"] := by decide
 theorem order_End : Facts.order_Conversation_End = ["wipe", "createSerializedDataMessage", "wipe", "signalSecurityEventIf", "wipe", "wipe", "wipeBigInt"] := by decide
@@ -85,7 +85,7 @@ theorem writers_ourInstanceTag : Facts.writers_ourInstanceTag = ["Conversation.I
 theorem writers_version : Facts.writers_version = ["Conversation.commitToVersionFrom"] := by decide
 theorem writers_theirKey : Facts.writers_theirKey = ["Conversation.parseTheirKey", "Conversation.processEncryptedSig"] := by decide
 theorem writers_ssid : Facts.writers_ssid = ["Conversation.akeHasFinished", "Conversation.calcAKEKeys"] := by decide
-theorem writers_sentRevealSig : Facts.writers_sentRevealSig = ["authStateAwaitingDHKey.receiveDHKeyMessage", "authStateAwaitingRevealSig.receiveRevealSigMessage"] := by decide
+theorem writers_sentRevealSig : Facts.writers_sentRevealSig = ["Conversation.akeHasFinished", "ake.wipe", "authStateAwaitingDHKey.receiveDHKeyMessage", "authStateAwaitingRevealSig.receiveRevealSigMessage"] := by decide
 theorem writers_whitespaceState : Facts.writers_whitespaceState = ["Conversation.appendWhitespaceTag", "Conversation.checkPlaintextPolicies"] := by decide
 
 /-! package level state (C20): nothing outside init writes a package-level variable; these are the
